@@ -5,6 +5,7 @@ package main
 import (
 	"fmt"
 
+	"github.com/makiuchi-d/gozxing"
 	qrdec "github.com/makiuchi-d/gozxing/qrcode/decoder"
 	qrenc "github.com/makiuchi-d/gozxing/qrcode/encoder"
 
@@ -58,8 +59,28 @@ func c07Config(r *fw.Rec, v int, l qrref.Level, mask int, reps int) {
 			continue
 		}
 		text, segs, charset := qrPayload(rng, mode, n)
-		info := map[string]interface{}{"version": v, "level": qrLevelName[l], "mask": mask, "mode": qrModeName[mode], "text": text, "charset": charset}
+		gs1 := false
+		if rep%3 == 2 || (reps == 1 && (v+mask)%5 == 0) {
+			// GS1 symbols: FNC1 in first position after any ECI header (ISO 18004: ECI designator first).
+			// Byte-mode content additionally gets a character-set hint so that both headers occur together.
+			gs1 = true
+			if mode == qrref.Byte {
+				if bs, ok := csTable[17].csEncode(text); ok && csTable[17].Name == "UTF-8" {
+					charset = "UTF-8"
+					segs = []qrref.Segment{{Mode: qrref.ModeECI, ECI: 26}, {Mode: qrref.ModeFNC1First, ECI: -1}, {Mode: qrref.Byte, Data: bs, ECI: -1}}
+				} else {
+					gs1 = false
+				}
+			} else {
+				segs = append([]qrref.Segment{{Mode: qrref.ModeFNC1First, ECI: -1}}, segs...)
+			}
+		}
+		info := map[string]interface{}{"version": v, "level": qrLevelName[l], "mask": mask, "mode": qrModeName[mode], "text": text, "charset": charset, "gs1": gs1}
 		data, ok := qrref.DataCodewordsFor(v, l, segs)
+		if !ok && gs1 {
+			r.Tally("gs1_payload_does_not_fit_skipped") // the 4/12 header bits pushed a capacity-length payload over
+			continue
+		}
 		if !ok {
 			r.Inconclusive(fmt.Sprintf("reference says %d %s characters do not fit %d-%s although Capacity() admits them", n, qrModeName[mode], v, qrLevelName[l]))
 			return
@@ -67,7 +88,12 @@ func c07Config(r *fw.Rec, v int, l qrref.Level, mask int, reps int) {
 		ref := qrref.BuildMatrix(v, l, mask, data)
 
 		// library encoder
-		code, err := qrenc.Encoder_encode(text, qrLibLevel[l], qrHints(v, mask, charset))
+		hints := qrHints(v, mask, charset)
+		if gs1 {
+			hints[gozxing.EncodeHintType_GS1_FORMAT] = true
+			r.Tally("gs1_symbols")
+		}
+		code, err := qrenc.Encoder_encode(text, qrLibLevel[l], hints)
 		if err != nil {
 			r.Violation("model-mismatch", "qr.encode:refused-fitting-content", fmt.Sprintf("Encoder_encode refused %d %s characters for %d-%s mask %d: %v", n, qrModeName[mode], v, qrLevelName[l], mask, err), info)
 			return
@@ -90,7 +116,7 @@ func c07Config(r *fw.Rec, v int, l qrref.Level, mask int, reps int) {
 			r.Violation("model-mismatch", "qr.decode:reference-symbol-rejected", fmt.Sprintf("decoder rejected the standard construction of %d-%s mask %d %s len %d: %v", v, qrLevelName[l], mask, qrModeName[mode], n, derr), info)
 			return
 		}
-		if res.GetText() != text {
+		if res.GetText() != text && !(gs1 && mode == qrref.Alphanumeric) { // FNC1 + alphanumeric: '%' is an escape (GS) - raw bytes are still compared
 			r.Violation("model-mismatch", "qr.decode:reference-symbol-misread", fmt.Sprintf("decoder read %q from the standard construction of %q (%d-%s mask %d)", trunc(res.GetText(), 80), trunc(text, 80), v, qrLevelName[l], mask), info)
 			return
 		}
@@ -230,7 +256,7 @@ func c07Tables(r *fw.Rec) {
 }
 
 func c07(c *fw.Ctx) {
-	c.Rule("all 1280 (version, level, mask) configurations, each with N payloads (modes rotate over numeric/alphanumeric/byte UTF-8/kanji, length capacity, capacity-1 or random): library Encoder_encode with forced version and mask vs qrref.BuildMatrix module for module, and the library decoder on the qrref-built symbol (text, raw data codewords, level); plus the decoder's per-version tables and all 32+34 BCH words; distinct = distinct (version, level, mask, payload)")
+	c.Rule("all 1280 (version, level, mask) configurations, each with N payloads (modes rotate over numeric/alphanumeric/byte UTF-8/kanji, length capacity, capacity-1 or random; a third of the payloads as GS1 symbols: FNC1 in first position, after the ECI header where a character set is declared): library Encoder_encode with forced version and mask vs qrref.BuildMatrix module for module, and the library decoder on the qrref-built symbol (text, raw data codewords, level); plus the decoder's per-version tables and all 32+34 BCH words; distinct = distinct (version, level, mask, payload)")
 	c.Assume("qrref (harness/ref/qrref) is the transcription of ISO/IEC 18004: tables typed independently, geometry/BCH/capacities computed; anchored on Annex I and published capacities in the start-up self-test")
 	c.Assume("automatic mask selection is not compared (the N3 penalty rule is ambiguous in the standard); masks are forced")
 	reps := c.Pick(6, 60)
